@@ -7,6 +7,7 @@ package main
 // response: {"code":int, "out":hex, "map":[[hexk,hexv]..sorted], "rest":hex, "panic":string}
 
 import (
+	"io"
 	"bufio"
 	"bytes"
 	"encoding/hex"
@@ -25,6 +26,7 @@ type hreq struct {
 	Pairs [][2]string `json:"pairs"`
 	Bytes string      `json:"bytes"`
 	Cap   int         `json:"cap"`
+	Chunk int         `json:"chunk"` // read_stream: the transport hands out at most this many bytes per Read (0 = all)
 }
 
 type hresp struct {
@@ -95,6 +97,19 @@ func sortedPairs(m map[string]string) [][2]string {
 		out = append(out, [2]string{hex.EncodeToString([]byte(k)), hex.EncodeToString([]byte(m[k]))})
 	}
 	return out
+}
+
+// shortReader returns at most n bytes per Read, as a socket may
+type shortReader struct {
+	r io.Reader
+	n int
+}
+
+func (s shortReader) Read(p []byte) (int, error) {
+	if len(p) > s.n {
+		p = p[:s.n]
+	}
+	return s.r.Read(p)
 }
 
 func withCap(b []byte, extra int) []byte {
@@ -173,7 +188,11 @@ func doHeaders(q hreq) hresp {
 		b, _ := hex.DecodeString(q.Bytes)
 		return guarded(func() hresp {
 			mem := &thrift.TMemoryBuffer{Buffer: bytes.NewBuffer(withCap(b, q.Cap))}
-			m, err := frugal.VerifReadHeader(mem)
+			var src io.Reader = mem
+			if q.Chunk > 0 {
+				src = shortReader{mem, q.Chunk} // a connection that delivers the stream in pieces
+			}
+			m, err := frugal.VerifReadHeader(src)
 			if err != nil {
 				return hresp{Code: classify(err), Msg: err.Error()}
 			}
